@@ -21,6 +21,7 @@ Definition obs_step (s : srv) (l : option Z) (o : sop) : option Z :=
   | SPresence p _ now => match sv_mem s with Some _ => saw p l now | None => l end
   | SPresRaw _ => l
   | SReload changed now => if changed then saw (sv_pres s) l now else l
+  | SReloadDecl old new now => if same_decl old new then l else saw (sv_pres s) l now
   | SEvent _ _ => l
   end.
 Fixpoint grun (s : srv) (l : option Z) (ops : list sop) : srv * option Z :=
@@ -140,6 +141,7 @@ Proof.
   - apply Inv_presence. exact HI.
   - destruct HI as [I0 I1 I2 I3]. constructor; cbn [sv_mem sv_rec]; assumption.
   - destruct changed; [apply Inv_load; exact HI|exact HI].
+  - destruct (same_decl old new); [exact HI|apply Inv_load; exact HI].
   - destruct Hn.
 Qed.
 
@@ -168,6 +170,21 @@ Proof.
   - intros ->. exact (I1 t Hm).
 Qed.
 Print Assumptions down_since_is_observed_loss.
+
+(** reload_server keeps the old Server object only when the new declaration is the same in every compared field:
+    exactly the same capacity vector, partition label, own traits and parent bucket *)
+Lemma zlist_same_eq a : forall b, zlist_same a b = true -> a = b.
+Proof.
+  induction a as [|x a IH]; intros [|y b]; cbn; try discriminate; [reflexivity|].
+  intros H. apply andb_true_iff in H as [H1 H2]. apply Z.eqb_eq in H1. rewrite H1, (IH b H2). reflexivity.
+Qed.
+Theorem reload_keeps_only_identical old new : same_decl old new = true -> old = new.
+Proof.
+  unfold same_decl. intros H. apply andb_true_iff in H as [H H4]. apply andb_true_iff in H as [H H3].
+  apply andb_true_iff in H as [H1 H2]. apply Z.eqb_eq in H1, H3, H4. apply zlist_same_eq in H2.
+  destruct old, new. cbn in *. congruence.
+Qed.
+Print Assumptions reload_keeps_only_identical.
 
 (** non-vacuity: lost at 100, seen again by a new master at 120 (it came back during the failover), lost again at 900 *)
 Example srv_nonvacuous :
